@@ -57,5 +57,203 @@ def gen_tile(tier, rng):
                            nontrivial=any(r > 1 for r in reps), tags=['tile', 'rank=%d' % len(s), 'reps_len%s' % ('<' if l < len(s) else '=' if l == len(s) else '>')])
 
 
+
+def parse(req):
+    parts = req.split()
+    d = {}
+    for kv in parts[1:]:
+        k, v = kv.split('=', 1)
+        d[k] = v
+    return parts[0], d
+
+
+def ints(v):
+    return [] if v in ('[]', '') else [int(x) for x in v.split(',')]
+
+
+def axes_of(dim, with_none=True):
+    """all valid axes incl. negative (and None)"""
+    return ([None] if with_none else []) + list(range(dim)) + list(range(-dim, 0))
+
+
+def axtag(ax):
+    return 'axis=None' if ax is None else ('axis<0' if ax < 0 else 'axis>=0')
+
+
+# ---------------------------------------------------------------- repeat
+def gen_repeat(tier, rng):
+    for s in src_shapes(tier):
+        a = iota(s)
+        for ax in axes_of(len(s)):
+            for r in (1, 2, 3):
+                yield Case('repeat shape=%s repeats=%d axis=%s' % (fmt(s), r, ax), H_A, oracle=ans(np.repeat(a, r, axis=ax)),
+                           dom=(ax is None or ax >= 0), nontrivial=r > 1, tags=['repeat', 'repeat.scalar', axtag(ax)])
+            if ax is None:
+                continue        # per-element repeats with axis None do not instantiate in nmtools (not runnable)
+            n = s[ax]
+            lists = list(itertools.product(range(1, 4), repeat=n))
+            if len(lists) > 9:
+                lists = rng.sample(lists, 9)
+            lists += [tuple(rng.randint(0, 3) for _ in range(n)) for _ in range(2)]    # zeros allowed by NumPy
+            for rs in lists:
+                yield Case('repeat shape=%s rlist=%s axis=%d' % (fmt(s), fmt(rs), ax), H_A, oracle=ans(np.repeat(a, rs, axis=ax)),
+                           dom=ax >= 0, tags=['repeat', 'repeat.list', axtag(ax)] + (['repeat.list.zero'] if 0 in rs else []))
+
+
+def k_repeat_negative_axis(c):
+    op, d = parse(c.req)
+    return op == 'repeat' and d['axis'] != 'None' and int(d['axis']) < 0
+
+
+# ---------------------------------------------------------------- roll
+def gen_roll(tier, rng):
+    for s in src_shapes(tier):
+        a = iota(s)
+        dim = len(s)
+        N = prod(s)
+        # axis None: flat roll, shifts in [-2N, 2N]
+        shifts = range(-2 * N, 2 * N + 1)
+        if tier != 'quick' and N > 24:
+            shifts = sorted(set(rng.sample(list(shifts), 24)) | {-2 * N, -N - 1, -N, -1, 0, 1, N, N + 1, 2 * N})
+        for sh in shifts:
+            yield Case('roll shape=%s shift=%d axis=None' % (fmt(s), sh), H_A, oracle=ans(np.roll(a, sh)),
+                       dom=abs(sh) <= N, nontrivial=sh % N != 0, tags=['roll', 'roll.none', 'shift>n' if abs(sh) > N else 'shift<=n'])
+        # single axis: every axis incl. negative, shifts in [-2n, 2n]
+        for ax in axes_of(dim, with_none=False):
+            n = s[ax]
+            for sh in range(-2 * n, 2 * n + 1):
+                yield Case('roll shape=%s shift=%d axis=%d' % (fmt(s), sh, ax), H_A, oracle=ans(np.roll(a, sh, axis=ax)),
+                           dom=abs(sh) <= n, nontrivial=sh % n != 0, tags=['roll', 'roll.single', axtag(ax), 'shift>n' if abs(sh) > n else 'shift<=n'])
+        # several axes: distinct (every ordered pair / triple, mixed signs), scalar and per-axis shifts; a few repeated axes
+        if dim >= 2:
+            combos = [c for k in (2, 3) if k <= dim for c in itertools.permutations(range(dim), k)]
+            for axes in combos:
+                for t in range(4):
+                    axs = [x - dim if rng.random() < 0.5 else x for x in axes]
+                    shs = [rng.randint(-2 * s[x], 2 * s[x]) if t == 3 else rng.randint(-s[x], s[x]) for x in axes]
+                    dom = all(abs(h) <= s[x] for h, x in zip(shs, axes))
+                    yield Case('roll shape=%s slist=%s alist=%s' % (fmt(s), fmt(shs), fmt(axs)), H_A, oracle=ans(np.roll(a, shs, axis=tuple(axs))),
+                               dom=dom, tags=['roll', 'roll.multi', 'shift<=n' if dom else 'shift>n'])
+                sh = rng.randint(-min(s[x] for x in axes), min(s[x] for x in axes))
+                axs = [x - dim if rng.random() < 0.5 else x for x in axes]
+                yield Case('roll shape=%s shift=%d alist=%s' % (fmt(s), sh, fmt(axs)), H_A, oracle=ans(np.roll(a, sh, axis=tuple(axs))),
+                           tags=['roll', 'roll.multi', 'roll.multi.scalar-shift'])
+            for x in range(dim):       # repeated axis: NumPy adds the shifts up
+                axs = [x, x - dim]
+                shs = [1, 1]
+                yield Case('roll shape=%s slist=%s alist=%s' % (fmt(s), fmt(shs), fmt(axs)), H_A, oracle=ans(np.roll(a, shs, axis=tuple(axs))),
+                           dom=False, tags=['roll', 'roll.multi', 'roll.repeated-axis'])
+
+
+def roll_info(c):
+    op, d = parse(c.req)
+    if op != 'roll':
+        return None
+    s = ints(d['shape'])
+    if d.get('axis') == 'None':
+        return [prod(s)], [int(d['shift'])], [0]
+    axes = [int(d['axis'])] if 'axis' in d else ints(d['alist'])
+    shs = ints(d['slist']) if 'slist' in d else [int(d['shift'])] * len(axes)
+    return s, shs, [x % len(s) for x in axes]
+
+
+def k_roll_large_shift(c):
+    r = roll_info(c)
+    return r is not None and any(abs(h) > r[0][x] for h, x in zip(r[1], r[2]))
+
+
+def k_roll_repeated_axis(c):
+    r = roll_info(c)
+    return r is not None and len(set(r[2])) < len(r[2])
+
+
+# ---------------------------------------------------------------- pad
+def np_pad_flat(a, w):
+    d = a.ndim
+    return np.pad(a, [(w[i], w[d + i]) for i in range(d)], mode='constant', constant_values=-1)
+
+
+def gen_pad(tier, rng):
+    for s in src_shapes(tier):
+        a = iota(s)
+        d = len(s)
+        allw = list(itertools.product(range(3), repeat=2 * d))
+        if len(allw) > 81:
+            allw = rng.sample(allw, 40 if tier == 'quick' else 24) + [tuple([2] * (2 * d)), tuple([0] * (2 * d))]
+        for w in allw:
+            yield Case('pad shape=%s widths=%s' % (fmt(s), fmt(w)), H_A, oracle=ans(np_pad_flat(a, w)),
+                       nontrivial=any(w), tags=['pad', 'rank=%d' % d])
+        # wrong number of widths: the view is Nothing (no NumPy counterpart; IMPL vs MODEL only)
+        yield Case('pad shape=%s widths=%s' % (fmt(s), fmt([1] * (2 * d + 1))), H_A, oracle='nothing', tags=['pad', 'pad.bad-length'])
+
+
+# ---------------------------------------------------------------- take
+def gen_take(tier, rng):
+    for s in src_shapes(tier):
+        a = iota(s)
+        for ax in axes_of(len(s)):
+            n = prod(s) if ax is None else s[ax]
+            vals = list(range(-n, n))
+            lists = [[v] for v in vals][:8]
+            for _ in range(10 if tier == 'quick' else 8):
+                lists.append([rng.choice(vals) for _ in range(rng.randint(2, 4))])
+            for _ in range(6):      # non-negative only (the proved domain), with repeats
+                lists.append([rng.randrange(n) for _ in range(rng.randint(1, 4))])
+            for ind in lists:
+                neg = any(v < 0 for v in ind)
+                yield Case('take shape=%s indices=%s axis=%s' % (fmt(s), fmt(ind), ax), H_A, oracle=ans(np.take(a, ind, axis=ax)),
+                           dom=(not neg) and (ax is None or ax >= 0),
+                           tags=['take', axtag(ax), 'index<0' if neg else 'index>=0'] + (['take.repeated'] if len(set(ind)) < len(ind) else []))
+
+
+def k_take_negative_index(c):
+    op, d = parse(c.req)
+    return op == 'take' and any(v < 0 for v in ints(d['indices']))
+
+
+def k_take_negative_axis(c):
+    op, d = parse(c.req)
+    return op == 'take' and d['axis'] != 'None' and int(d['axis']) < 0
+
+
+# ---------------------------------------------------------------- concatenate
+def gen_concatenate(tier, rng):
+    E = 3 if tier == 'quick' else 4
+    ss = src_shapes(tier)
+    for s in ss:
+        a = iota(s)
+        for ax in axes_of(len(s), with_none=False):
+            for e in range(1, E + 1):
+                s2 = list(s)
+                s2[ax] = e
+                b = iota(s2, 1000)
+                yield Case('concatenate shape=%s shape2=%s axis=%d' % (fmt(s), fmt(s2), ax), H_A, oracle=ans(np.concatenate([a, b], axis=ax)),
+                           dom=ax >= 0, tags=['concatenate', axtag(ax)])
+    for _ in range(300 if tier == 'quick' else 1500):
+        s, s2 = rng.choice(ss), rng.choice(ss)
+        yield Case('concatenate shape=%s shape2=%s axis=None' % (fmt(s), fmt(s2)), H_A,
+                   oracle=ans(np.concatenate([iota(s), iota(s2, 1000)], axis=None)), tags=['concatenate', 'axis=None'])
+
+
+def k_concatenate_negative_axis(c):
+    op, d = parse(c.req)
+    return op == 'concatenate' and d['axis'] != 'None' and int(d['axis']) < 0
+
+
+KNOWN_PREDICATES.update({
+    'repeat_negative_axis': k_repeat_negative_axis,
+    'roll_large_shift': k_roll_large_shift,
+    'roll_repeated_axis': k_roll_repeated_axis,
+    'take_negative_index': k_take_negative_index,
+    'take_negative_axis': k_take_negative_axis,
+    'concatenate_negative_axis': k_concatenate_negative_axis,
+})
+
+
 def gen(tier, rng):
     yield from gen_tile(tier, rng)
+    yield from gen_repeat(tier, rng)
+    yield from gen_roll(tier, rng)
+    yield from gen_pad(tier, rng)
+    yield from gen_take(tier, rng)
+    yield from gen_concatenate(tier, rng)
